@@ -162,6 +162,17 @@ Theorem c25_full_stack_eq_expand :
      gfinal_of _ _ _ _ _ _ (snd (full_expand_root fs max_depth p0 o0))).
 Proof. intros fs d p0 c0 H1 H2. exact (full_run_eq_expand fs H1 d p0 c0 H2). Qed.
 
+(* ... and the fuel is no assumption of the run: WHATEVER fuel the (extracted) machine is given, a result
+   other than the model's own "out of fuel" is the structural expansion (runs are stable under more
+   fuel).  ocaml/run_c25f.ml uses 200 000 and would print `out-of-fuel` otherwise. *)
+Theorem c25_full_any_fuel :
+  forall (fs : path -> option fobj) (max_depth : nat) (p0 : path) (o0 : fobj) (fuel : nat),
+  (forall p c, fs p = Some c -> has_parent p) -> has_parent p0 ->
+  snd (full_run fs max_depth fuel [(p0, 0%N, full_root o0)]) <> FOutOfFuel _ _ ->
+  full_run fs max_depth fuel [(p0, 0%N, full_root o0)] =
+  (fst (full_expand_root fs max_depth p0 o0), gfinal_of _ _ _ _ _ _ (snd (full_expand_root fs max_depth p0 o0))).
+Proof. intros fs d p0 o0 fuel H1 H2. exact (full_run_any_fuel fs H1 d p0 o0 H2 fuel). Qed.
+
 (* ... the run ends (for all large fuel) with the end of the root file or with an error of
    fs::Parser — never a panic, never the model's fuel (neither the machine's, nor the per-file
    parser's, nor the spec's budget) — and every record yielded through any nesting of includes is
@@ -281,3 +292,4 @@ Print Assumptions c25_full_include_directory.
 Print Assumptions c25_lines_are_iter.
 Print Assumptions c25_relative_paths.
 Print Assumptions c25_has_parent_iff.
+Print Assumptions c25_full_any_fuel.
